@@ -19,34 +19,43 @@ pub fn dispatch(cmd: &str, args: &Args) -> Option<i32> {
     })
 }
 
-const COND_PRELUDE: &str = "\\let\\Aiftrue=\\iftrue \\let\\Aiffalse=\\iffalse \\let\\Aifodd=\\ifodd \\let\\Aifnum=\\ifnum \\let\\Aifcase=\\ifcase \\let\\Aor=\\or \\let\\Aelse=\\else \\let\\Afi=\\fi ";
+const COND_PRELUDE: &str = "\\let\\Aiftrue=\\iftrue \\let\\Aiffalse=\\iffalse \\let\\Aifodd=\\ifodd \\let\\Aifnum=\\ifnum \\let\\Aifcase=\\ifcase \\let\\Aor=\\or \\let\\Aelse=\\else \\let\\Afi=\\fi \\catcode`\\!=13 \\catcode`\\?=13 \\catcode`\\|=13 \\catcode`\\@=13 \\catcode`\\;=13 \\catcode`\\:=13 \\catcode`\\*=13 \\let~=\\else \\let!=\\fi \\let?=\\or \\let|=\\iftrue \\let@=\\iffalse \\let;=\\ifodd \\let:=\\ifnum \\let*=\\ifcase ";
 
-/// Spell one conditional-language token.  `alias` selects the \let-alias of a primitive.
-fn render_cond_tok(t: &Value, alias: bool) -> String {
-    let a = if alias { "A" } else { "" };
+/// Spell one conditional-language token.  `alias`: 0 = the primitive, 1 = a \let-alias on a control
+/// sequence, 2 = a \let-alias on an active character (no space is skipped after those).
+fn render_cond_tok(t: &Value, alias: u64) -> String {
+    let name = |prim: &str, act: &str, arg: String| -> String {
+        match alias {
+            0 => format!("\\{prim} {arg}"),
+            1 => format!("\\A{prim} {arg}"),
+            _ => format!("{act}{arg}"),
+        }
+    };
     match t["t"].as_str().unwrap() {
         "x" => ["?", "a", "b", "c"][t["c"].as_u64().unwrap() as usize].to_string(),
         "lb" => "{".to_string(),
         "rb" => "}".to_string(),
-        "or" => format!("\\{a}or "),
-        "else" => format!("\\{a}else "),
-        "fi" => format!("\\{a}fi "),
-        "case" => format!("\\{a}ifcase {} ", t["a"].as_i64().unwrap()),
+        "or" => name("or", "?", String::new()),
+        "else" => name("else", "~", String::new()),
+        "fi" => name("fi", "!", String::new()),
+        "case" => name("ifcase", "*", format!("{} ", t["a"].as_i64().unwrap())),
         "if" => match t["kind"].as_str().unwrap() {
-            "iftrue" => format!("\\{a}iftrue "),
-            "iffalse" => format!("\\{a}iffalse "),
-            "ifodd" => format!("\\{a}ifodd {} ", t["a"].as_i64().unwrap()),
-            "ifnum" => format!("\\{a}ifnum {}{}{} ", t["a"].as_i64().unwrap(), t["rel"].as_str().unwrap(), t["b"].as_i64().unwrap()),
+            "iftrue" => name("iftrue", "|", String::new()),
+            "iffalse" => name("iffalse", "@", String::new()),
+            "ifodd" => name("ifodd", ";", format!("{} ", t["a"].as_i64().unwrap())),
+            "ifnum" => name("ifnum", ":", format!("{}{}{} ", t["a"].as_i64().unwrap(), t["rel"].as_str().unwrap(), t["b"].as_i64().unwrap())),
             k => panic!("unknown condition {k}"),
         },
         k => panic!("unknown token {k}"),
     }
 }
 
+/// alias_bits: two bits per token position (mod 30): 0/3 primitive, 1 control-sequence alias, 2 active alias
 fn render_cond(toks: &[Value], alias_bits: u64) -> String {
     let mut s = String::from(COND_PRELUDE);
     for (i, t) in toks.iter().enumerate() {
-        s.push_str(&render_cond_tok(t, (alias_bits >> (i % 60)) & 1 == 1));
+        let a = (alias_bits >> (2 * (i % 30))) & 3;
+        s.push_str(&render_cond_tok(t, if a == 3 { 0 } else { a }));
     }
     s
 }
@@ -121,7 +130,8 @@ pub fn cond_replay(args: &Args) -> i32 {
         // each case three ways: primitives only, aliases only, mixed
         let mut bad = vec![];
         let mut rng = Rng::new(seed ^ (i as u64) << 8);
-        for bits in [0u64, u64::MAX, rng.next()] {
+        // primitives only, control-sequence aliases only, active-character aliases only, mixed
+        for bits in [0u64, 0x5555_5555_5555_5555, 0xAAAA_AAAA_AAAA_AAAA, rng.next()] {
             let src = render_cond(toks, bits);
             let (got, err) = run_cond(&src);
             if got != want || !err.is_empty() {
@@ -140,7 +150,7 @@ pub fn cond_replay(args: &Args) -> i32 {
         }
     }
     let sample = cases.get(cases.len() / 2).map(|c| render_cond(c["toks"].as_array().unwrap(), 0));
-    out.line(&json!({"kind":"summary","part":"cond-replay","cases":cases.len(),"runs":cases.len()*3,"violations":nv,"sample":sample}));
+    out.line(&json!({"kind":"summary","part":"cond-replay","cases":cases.len(),"runs":cases.len()*4,"violations":nv,"sample":sample}));
     0
 }
 
